@@ -5,6 +5,7 @@ CONSTANTS
   ChunkSize = 256
   ChunkStride = 1
   Walk = FALSE
+  Pow2 = TRUE
   Kinds = {"half", "float", "double", "x86_fp80", "fp128", "ppc_fp128"}
 INVARIANTS Preserved
 CHECK_DEADLOCK FALSE
